@@ -761,8 +761,10 @@ def special_cases(draw):
         return {"doc": draw(docs(hashes=True)), "chain": [t]}
     if kind == "wildcard_ph":
         return {"doc": draw(docs(placeholders=True)), "chain": [{"type": "wildcard_placeholders"}]}
-    return {"doc": draw(docs(placeholders=True)), "chain": [{"type": "value_placeholders", "include": ["p"]}, {"type": "wildcard_placeholders"}],
-            "vars": {"p": ["v1", "v2"]}}
+    chain = [{"type": "value_placeholders", "include": ["p"]}, {"type": "wildcard_placeholders"}]
+    if draw(st.booleans()):  # the same items inside a nested pipeline: the variables of the pipeline are theirs too
+        chain = [{"type": "nest", "items": chain}] if draw(st.booleans()) else [{"type": "nest", "items": chain[:1]}, chain[1]]
+    return {"doc": draw(docs(placeholders=True)), "chain": chain, "vars": {"p": ["v1", "v2"]}}
 
 
 def run(ctx) -> None:
